@@ -11,6 +11,7 @@ from vmc import alpha, build, fixtures as fx, h5ref
 from vmc.core import scratch
 
 ID = "C18"
+TECHNIQUE = 'exhaustive enumeration of all injective renaming maps + breadth-first search over chains of renamings (states = name tuples), differential oracle old-name-before vs new-name-after'
 LEVEL = "model_checking"
 RULE = ("coolers with 2 and 3 chromosomes (fixed and variable width), chromosome column as HDF5 enum and as raw integers; EVERY partial "
         "injective renaming map drawn per chromosome from {keep, longer name, shorter name, another chromosome's old name (swaps, "
